@@ -20,6 +20,10 @@ structure Inv (s : Cycle.State) : Prop where
 theorem inv_init : Inv ({} : Cycle.State) := by
   constructor <;> intro i c h <;> simp at h
 
+/-- the initial state of an agent with either gathering policy -/
+theorem inv_init' (k : Bool) : Inv ({ continual := k } : Cycle.State) := by
+  constructor <;> intro i c h <;> simp at h
+
 /-- at most one cycle is not cancelled -/
 theorem Inv.unique {s : Cycle.State} (h : Inv s) {i j : Nat} {ci cj : Cyc}
     (hi : s.cycles[i]? = some ci) (hj : s.cycles[j]? = some cj)
@@ -240,11 +244,16 @@ theorem inv_step (r : Bool) {s : Cycle.State} (h : Inv s) (e : Ev) : Inv (Cycle.
           have hap' : cy.applied = true := by
             have : ¬ (cy.applied = false) := fun h0 => by simp [h0] at hap
             simpa using this
-          exact inv_modify h c (fun y => { y with finished := true }) GS.complete (fun _ => rfl) (fun _ => rfl)
-            (fun c' hc' _ => by
-              have : c' = cy := by simpa [hcy] using hc'.symm
-              subst this; simpa using hap')
-            (Or.inr ⟨cy, hcy, hl.2⟩) (fun c' hc' hw => h.win c c' hc' hw)
+          split
+          · have := inv_modify h c (fun y => { y with monitoring := true }) s.gs (fun _ => rfl) (fun _ => rfl)
+              (fun c' hc' hl => by simpa using (h.live c c' hc' hl).2) (Or.inl rfl)
+              (fun c' hc' hw => h.win c c' hc' hw)
+            exact modify_same_gs s c _ ▸ this
+          · exact inv_modify h c (fun y => { y with finished := true }) GS.complete (fun _ => rfl) (fun _ => rfl)
+              (fun c' hc' _ => by
+                have : c' = cy := by simpa [hcy] using hc'.symm
+                subst this; simpa using hap')
+              (Or.inr ⟨cy, hcy, hl.2⟩) (fun c' hc' hw => h.win c c' hc' hw)
   | restart =>
     simp only [Cycle.step]
     split
@@ -253,6 +262,19 @@ theorem inv_step (r : Bool) {s : Cycle.State} (h : Inv s) (e : Ev) : Inv (Cycle.
   | close =>
     simp only [Cycle.step]
     exact inv_cancelAll h s.gs s.gen true (by omega)
+  | tick c =>
+    simp only [Cycle.step]
+    split
+    · exact h
+    · rename_i cy hcy
+      split
+      · exact h
+      · split
+        · have := inv_modify h c (fun y => { y with finished := true }) s.gs (fun _ => rfl) (fun _ => rfl)
+            (fun c' hc' hl => by simpa using (h.live c c' hc' hl).2) (Or.inl rfl)
+            (fun c' hc' hw => h.win c c' hc' hw)
+          exact modify_same_gs s c _ ▸ this
+        · exact h
 
 theorem inv_run (r : Bool) : ∀ (evs : List Ev) {s : Cycle.State}, Inv s → Inv (Cycle.run r s evs).1 := by
   intro evs
@@ -295,6 +317,7 @@ theorem gs_forward (r : Bool) {s : Cycle.State} (h : Inv s) (e : Ev) (he : e ≠
   | complete c =>
     simp only [Cycle.step]
     (repeat' split) <;> simp [Cycle.modify] <;> (cases s.gs <;> simp [rank])
+  | tick c => simp only [Cycle.step]; (repeat' split) <;> simp [Cycle.modify]
   | start c =>
     simp only [Cycle.step]
     split
@@ -349,15 +372,18 @@ theorem step_nil (r : Bool) {s : Cycle.State} (h : Inv s) (e : Ev) (g : Nat) :
         · rename_i hlive
           have hl : s.closed = false ∧ cy.cancelled = false := by simpa using hlive
           have hg := (h.live c cy hcy hl.2).1
-          by_cases hc : s.gs = GS.complete
-          · left; simp [hc, nilCount, isNil]
-          · by_cases hgg : g = s.gen
-            · right
-              subst hgg
-              simp [hc, nilCount, isNil, hg, Cycle.modify]
-            · left
-              have : (cy.gen == g) = false := by simp [hg]; omega
-              simp [hc, nilCount, isNil, this]
+          split
+          · left; simp [nilCount, isNil]
+          · by_cases hc : s.gs = GS.complete
+            · left; simp [hc, nilCount, isNil]
+            · by_cases hgg : g = s.gen
+              · right
+                subst hgg
+                simp [hc, nilCount, isNil, hg, Cycle.modify]
+              · left
+                have : (cy.gen == g) = false := by simp [hg]; omega
+                simp [hc, nilCount, isNil, this]
+  | tick c => left; simp only [Cycle.step]; (repeat' split) <;> simp [nilCount, isNil]
   | gather => left; simp only [Cycle.step]; (repeat' split) <;> simp [nilCount, isNil]
   | start c => left; simp only [Cycle.step]; (repeat' split) <;> simp [nilCount, isNil]
   | addCheck c => left; simp only [Cycle.step]; (repeat' split) <;> simp [nilCount, isNil]
@@ -435,6 +461,9 @@ theorem ninv_run (r : Bool) : ∀ (evs : List Ev) {s : Cycle.State} {outs : List
 theorem ninv_init : NInv ({} : Cycle.State) [] :=
   ⟨inv_init, by intro g _; rfl, by intro g; simp [nilCount], by intro h; simp [nilCount] at h⟩
 
+theorem ninv_init' (k : Bool) : NInv ({ continual := k } : Cycle.State) [] :=
+  ⟨inv_init' k, by intro g _; rfl, by intro g; simp [nilCount], by intro h; simp [nilCount] at h⟩
+
 /-! ### results of a cancelled cycle and the new generation -/
 
 def stale : Out → Bool
@@ -464,6 +493,7 @@ theorem no_stale_step_recheck {s : Cycle.State} (h : Inv s) (e : Ev) :
   | complete c => simp only [Cycle.step]; (repeat' split) <;> simp [stale]
   | restart => simp only [Cycle.step]; (repeat' split) <;> simp [stale]
   | close => simp [Cycle.step]
+  | tick c => simp only [Cycle.step]; (repeat' split) <;> simp [stale]
 
 theorem no_stale_run_recheck : ∀ (evs : List Ev) {s : Cycle.State}, Inv s →
     ∀ o ∈ (Cycle.run true s evs).2, stale o = false := by
@@ -601,10 +631,22 @@ theorem winv_step {s : Cycle.State} (h : Inv s) (w : WInv s) (e : Ev)
       · exact w
       · split
         · exact modcase c _ (fun _ => rfl) (fun c' hc' hw => w c c' hc' hw)
-        · intro i c' hc hw
-          have := modcase c (fun y => { y with finished := true }) (fun _ => rfl)
-            (fun c' hc' hw => w c c' hc' hw) i c' (by simpa using hc) hw
-          simpa using this
+        · split
+          · exact modcase c _ (fun _ => rfl) (fun c' hc' hw => w c c' hc' hw)
+          · intro i c' hc hw
+            have := modcase c (fun y => { y with finished := true }) (fun _ => rfl)
+              (fun c' hc' hw => w c c' hc' hw) i c' (by simpa using hc) hw
+            simpa using this
+  | tick c =>
+    simp only [Cycle.step]
+    split
+    · exact w
+    · rename_i cy hcy
+      split
+      · exact w
+      · split
+        · exact modcase c _ (fun _ => rfl) (fun c' hc' hw => w c c' hc' hw)
+        · exact w
 
 theorem no_stale_step_quiet {s : Cycle.State} (h : Inv s) (w : WInv s) (e : Ev) :
     ∀ o ∈ (Cycle.step false s e).2, stale o = false := by
@@ -634,6 +676,7 @@ theorem no_stale_step_quiet {s : Cycle.State} (h : Inv s) (w : WInv s) (e : Ev) 
   | complete c => simp only [Cycle.step]; (repeat' split) <;> simp [stale]
   | restart => simp only [Cycle.step]; (repeat' split) <;> simp [stale]
   | close => simp [Cycle.step]
+  | tick c => simp only [Cycle.step]; (repeat' split) <;> simp [stale]
 
 theorem no_stale_run_quiet : ∀ (evs : List Ev) {s : Cycle.State}, Inv s → WInv s → quiet s evs = true →
     ∀ o ∈ (Cycle.run false s evs).2, stale o = false := by
@@ -651,6 +694,87 @@ theorem no_stale_run_quiet : ∀ (evs : List Ev) {s : Cycle.State}, Inv s → WI
 
 theorem winv_init : WInv ({} : Cycle.State) := by
   intro i c h; simp at h
+
+theorem winv_init' (k : Bool) : WInv ({ continual := k } : Cycle.State) := by
+  intro i c h; simp at h
+
+/-! ### continual gathering: no Complete, no nil candidate; re-gather passes belong to the live cycle -/
+
+/-- the policy is fixed at construction -/
+theorem step_continual (r : Bool) (s : Cycle.State) (e : Ev) : (Cycle.step r s e).1.continual = s.continual := by
+  cases e <;> simp only [Cycle.step] <;> (repeat' split) <;> simp [Cycle.modify]
+
+theorem run_continual (r : Bool) : ∀ (evs : List Ev) (s : Cycle.State), (Cycle.run r s evs).1.continual = s.continual := by
+  intro evs
+  induction evs with
+  | nil => intro s; rfl
+  | cons e es ih => intro s; simp only [Cycle.run]; rw [ih, step_continual]
+
+/-- with `GatherContinually` no transition delivers a nil candidate or reaches Complete -/
+theorem step_no_nil_continual (r : Bool) {s : Cycle.State} (hk : s.continual = true) (hg : s.gs ≠ GS.complete) (e : Ev) :
+    (∀ g, nilCount (Cycle.step r s e).2 g = 0) ∧ (Cycle.step r s e).1.gs ≠ GS.complete := by
+  cases e <;> simp only [Cycle.step] <;> (repeat' split) <;> simp_all [nilCount, isNil, Cycle.modify]
+
+theorem run_no_nil_continual (r : Bool) : ∀ (evs : List Ev) {s : Cycle.State}, s.continual = true → s.gs ≠ GS.complete →
+    (∀ g, nilCount (Cycle.run r s evs).2 g = 0) ∧ (Cycle.run r s evs).1.gs ≠ GS.complete := by
+  intro evs
+  induction evs with
+  | nil => intro s _ hg; exact ⟨fun g => by simp [Cycle.run, nilCount], by simpa [Cycle.run] using hg⟩
+  | cons e es ih =>
+    intro s hk hg
+    have h1 := step_no_nil_continual r hk hg e
+    have h2 := ih (s := (Cycle.step r s e).1) (by rw [step_continual]; exact hk) h1.2
+    simp only [Cycle.run]
+    exact ⟨fun g => by rw [nilCount_append, h1.1 g, h2.1 g], h2.2⟩
+
+/-- a re-gather pass is only ever begun by a `tick` of a cycle that is monitoring, not cancelled, of the current
+generation, while the agent is open and the state is Gathering -/
+theorem regather_live (r : Bool) {s : Cycle.State} (h : Inv s) (hnc : s.continual = true → s.gs ≠ GS.complete) (e : Ev) (c g : Nat)
+    (ho : Out.regather c g ∈ (Cycle.step r s e).2) :
+    e = .tick c ∧ s.closed = false ∧ g = s.gen ∧ s.gs = GS.gathering ∧ s.continual = true ∧ (Cycle.step r s e).1 = s
+      ∧ ∃ cy, s.cycles[c]? = some cy ∧ cy.cancelled = false ∧ cy.monitoring = true ∧ cy.gen = g := by
+  cases e with
+  | tick c' =>
+    simp only [Cycle.step] at ho ⊢
+    split at ho
+    · simp at ho
+    · rename_i cy hcy
+      split at ho
+      · simp at ho
+      · rename_i hm
+        split at ho
+        · simp at ho
+        · rename_i hlive
+          have hl : s.closed = false ∧ cy.cancelled = false := by simpa using hlive
+          have hm' : ((cy.monitoring = true ∧ cy.finished = false) ∧ cy.applied = true) ∧ s.continual = true := by simpa using hm
+          simp only [List.mem_singleton, Out.regather.injEq] at ho
+          obtain ⟨rfl, rfl⟩ := ho
+          have hlv := h.live c cy hcy hl.2
+          have h1 : s.gs ≠ GS.new := hlv.2.1 hm'.1.2
+          have h2 : s.gs ≠ GS.complete := hnc hm'.2
+          refine ⟨rfl, hl.1, hlv.1, ?_, hm'.2, ?_, cy, hcy, hl.2, hm'.1.1.1, rfl⟩
+          · cases hgs : s.gs <;> simp_all
+          · simp [hm, hlive]
+  | gather => simp only [Cycle.step] at ho; (repeat' split at ho) <;> simp at ho
+  | start c' => simp only [Cycle.step] at ho; (repeat' split at ho) <;> simp at ho
+  | addCheck c' => simp only [Cycle.step] at ho; (repeat' split at ho) <;> simp at ho
+  | addHandoff c' => simp only [Cycle.step] at ho; (repeat' split at ho) <;> simp at ho
+  | addAbort c' => simp only [Cycle.step] at ho; (repeat' split at ho) <;> simp at ho
+  | complete c' => simp only [Cycle.step] at ho; (repeat' split at ho) <;> simp at ho
+  | restart => simp only [Cycle.step] at ho; (repeat' split at ho) <;> simp at ho
+  | close => simp [Cycle.step] at ho
+
+/-- Restart (and Close) cancels the monitor: whatever `tick` follows, no re-gather pass begins -/
+theorem tick_after_cancel (r : Bool) (s : Cycle.State) (hc : ∀ cy ∈ s.cycles, cy.cancelled = true) (c : Nat) :
+    (Cycle.step r s (.tick c)).2 = [] := by
+  simp only [Cycle.step]
+  split
+  · rfl
+  · rename_i cy hcy
+    have := hc cy (List.mem_of_getElem? hcy)
+    split
+    · rfl
+    · simp [this]
 
 /-- the window is real: Restart between the context check and the hand-off publishes a candidate of
 the cancelled cycle (generation 0) into generation 1 -/
